@@ -79,6 +79,7 @@ def oracle_stream_content(case, impl):
     tr = Trace(case, impl)
     hits = []
     seq_start = {}       # seq -> (stream start, len)
+    prev_max_ss = None
     next_pos = 0
     last_data_seq = None
     fin_seq = None
@@ -87,10 +88,34 @@ def oracle_stream_content(case, impl):
     probe_sizes = {}
     mss_floor = None
     highest_sent = None
+    popped_after_wire = set()    # numbers that were transmitted, then released by a probe pop (last_sent rewound below them)
+    resplit_acked = False        # ... and the peer acknowledged one of them afterwards: its old copy was delivered
+
+    def classify(h):
+        if resplit_acked and h["sig"]["what"] in ("wrong_bytes", "retransmission_differs", "seq_gap", "resegmented_wrong_bytes", "fin_seq", "fin_before_data"):
+            h["sig"] = {"oracle": "stream", "what": "diverged_after_delivered_probe_was_resplit"}
+            h["text"] = "the peer acknowledged a size probe whose sequence number had already been re-segmented after expiry (its first copy was delivered, the ACK came late): sender and receiver now disagree about which bytes that number carried; then: " + h["text"]
+        return h
+
     for ev in tr.events:
         if ev["op"] == "new":
             seq_start, next_pos, last_data_seq, fin_seq = {}, 0, None, None
             highest_sent = (int(ev["opts"].get("our", 101)) - 1) % 65536
+            popped_after_wire, resplit_acked = set(), False
+        if ev["op"] == "poll" and "fp" in ev and highest_sent is not None:
+            try:
+                lss = int(ev["fp"].get("lss"))
+                ms = int(ev["fp"].get("ss", "min_ss=0:max_ss=0").split("max_ss=")[1])
+                if _md(highest_sent, lss) > 0 and ev["fp"].get("rtor", "0") == "0" or (prev_max_ss is not None and ms < prev_max_ss):
+                    for q in list(seq_start):
+                        if _md(q, lss) > 0:
+                            popped_after_wire.add(q)
+                prev_max_ss = ms
+            except (TypeError, ValueError, IndexError):
+                pass
+        if ev["op"] == "inject" and "dgram" in ev and ev["dgram"]["type"] in (0, 1, 2) and popped_after_wire:
+            if any(_md(ev["dgram"]["ack"], q) >= 0 for q in popped_after_wire):
+                resplit_acked = True
         if ev["op"] == "chanclose":
             break          # the socket removed the connection: abnormal path, not judged
         if ev["op"] == "inject" and "dgram" in ev and ev["dgram"]["type"] in (0, 1, 2):
@@ -144,7 +169,7 @@ def oracle_stream_content(case, impl):
                     res_err = ev.get("res", "").startswith("ready:err")
                     own_initiative = ev["fp"].get("st", "").startswith("FinWait1")
                     if not own_initiative:
-                        return hits[:3]    # FIN in answer to the peer's FIN / on the death path: what follows is not judged
+                        return [classify(h) for h in hits[:3]]    # FIN in answer to the peer's FIN / on the death path: what follows is not judged
                     if not res_err and own_initiative:
                         if next_pos != ev["accepted_total"]:
                             hits.append({"sig": {"oracle": "stream", "what": "fin_before_data"},
@@ -156,7 +181,7 @@ def oracle_stream_content(case, impl):
                     hits.append({"sig": {"oracle": "stream", "what": "fin_seq_changed"}, "text": f"FIN retransmitted with seq {d['seq']} (was {fin_seq})"})
         if len(hits) >= 3:
             break
-    return hits[:3]
+    return [classify(h) for h in hits[:3]]
 
 
 def oracle_datagram_sizes(case, impl):
@@ -322,7 +347,121 @@ def oracle_window(case, impl):
     return hits[:2]
 
 
+def oracle_retx_cap(case, impl):
+    """C06: no sequence number is put on the wire more than 1 + max_retransmissions times (re-segmented probes
+    restart the count)."""
+    tr = Trace(case, impl)
+    hits = []
+    count = {}
+    size = {}
+    cap = 5
+    for ev in tr.events:
+        if ev["op"] == "new":
+            cap = int(ev["opts"].get("retx", 5))
+            count, size = {}, {}
+        if ev["op"] == "poll" and "dgrams" in ev:
+            for d in ev["dgrams"]:
+                if d["type"] != 0:
+                    continue
+                if size.get(d["seq"]) not in (None, d["plen"]):
+                    count[d["seq"]] = 0          # re-segmented
+                size[d["seq"]] = d["plen"]
+                count[d["seq"]] = count.get(d["seq"], 0) + 1
+                if count[d["seq"]] > cap + 1:
+                    hits.append({"sig": {"oracle": "retx", "what": "cap_exceeded"},
+                                 "text": f"seq {d['seq']} transmitted {count[d['seq']]} times with max_retransmissions={cap}"})
+                    return hits
+    return hits
+
+
+def oracle_ack_honesty(case, impl):
+    """C04/C03 at the connection level: no emitted ack_nr is ahead of the highest sequence number received in
+    order from the scripted peer (data or in-sequence FIN)."""
+    tr = Trace(case, impl)
+    hits = []
+    have = set()
+    expected = None
+    for ev in tr.events:
+        if ev["op"] == "new":
+            o = ev["opts"]
+            rem = int(o.get("rem", 1))
+            expected = rem if o["dir"] == "out" else (rem + 1) % 65536
+            have = set()
+        if ev["op"] == "inject" and "dgram" in ev and ev["dgram"]["type"] in (0, 1):
+            have.add(ev["dgram"]["seq"])
+        if ev["op"] == "poll" and "dgrams" in ev and expected is not None:
+            while expected in have:
+                expected = (expected + 1) % 65536
+            for d in ev["dgrams"]:
+                if _md(d["ack"], (expected - 1) % 65536) > 0:
+                    hits.append({"sig": {"oracle": "ackhonest", "what": "ack_overstates"},
+                                 "text": f"emitted ack_nr {d['ack']} but the highest sequence number received in order is {(expected - 1) % 65536}"})
+                    return hits
+    return hits
+
+
+def oracle_rtx_timer(case, impl):
+    """C02: after a poll on a writable transport, data the peer has not acknowledged implies an armed
+    retransmission timer (otherwise nothing will ever resend it)."""
+    tr = Trace(case, impl)
+    hits = []
+    if any(l.startswith(("vs tmode", "vs chanclose")) for l in case):
+        return []
+    outstanding = {}
+    pending = []
+    highest = None
+    for ev in tr.events:
+        if ev["op"] == "new":
+            outstanding, pending = {}, []
+            highest = (int(ev["opts"].get("our", 101)) - 1) % 65536
+        if ev["op"] == "inject" and "dgram" in ev:
+            pending.append(ev["dgram"])
+        if ev["op"] != "poll" or "dgrams" not in ev:
+            continue
+        if ev["res"].startswith("ready"):
+            break
+        st = ev["fp"].get("st", "")
+        if not st.startswith(("Established", "FinWait1")):
+            pending = []
+            continue
+        for d in pending:
+            if d["type"] in (3, 4):
+                continue
+            if highest is not None and (_md(d["ack"], highest) > 0 or _sack_beyond(d, highest)):
+                return hits
+            for q in list(outstanding):
+                if _md(d["ack"], q) >= 0:
+                    del outstanding[q]
+            if d["sack"] is not None:
+                raw = (bytes(d["sack"]) + bytes(8))[:8]
+                for b in range(64):
+                    if raw[b // 8] >> (b % 8) & 1:
+                        outstanding.pop((d["ack"] + 2 + b) % 65536, None)
+        pending = []
+        for d in ev["dgrams"]:
+            if d["type"] in (0, 1):
+                outstanding[d["seq"]] = d["plen"]
+                if highest is None or _md(d["seq"], highest) > 0:
+                    highest = d["seq"]
+        # a popped probe releases its number: nothing beyond last_sent_seq_nr is in flight
+        try:
+            lss = int(ev["fp"].get("lss"))
+            for q in list(outstanding):
+                if _md(q, lss) > 0:
+                    del outstanding[q]
+        except (TypeError, ValueError):
+            pass
+        if outstanding and ev["fp"].get("t_rtx") == "-":
+            hits.append({"sig": {"oracle": "rtx_timer", "what": "idle_with_outstanding"},
+                         "text": f"after the poll at t={ev['t']} sequence numbers {sorted(outstanding)[:4]} are unacknowledged but the retransmission timer is idle (rto_retransmissions={ev['fp'].get('rtor')}): nothing will resend them"})
+            return hits
+    return hits
+
+
 ALL = {
+    "retx_cap": oracle_retx_cap,
+    "ack_honesty": oracle_ack_honesty,
+    "rtx_timer": oracle_rtx_timer,
     "stream_content": oracle_stream_content,
     "datagram_sizes": oracle_datagram_sizes,
     "ack_timeliness": oracle_ack_timeliness,
